@@ -260,6 +260,37 @@ class _Helper:
             return False
         return all(r.value is None and r is self.body[-1] for r in self.returns)
 
+    def forgen_form(self):
+        """A generator that is one loop (after plain assignments) with a single `yield E` as the last thing an iteration does:
+        `for T in H(..): BODY` is then that loop with `T = E; BODY` in place of the yield - break and continue of BODY act on the
+        generator's loop exactly as they acted on the consumer's."""
+        if not self.listgen_form():
+            return False
+        body = [st for st in self.body if not isinstance(st, ast.Return)]
+        if not body or not isinstance(body[-1], (ast.For, ast.While)) or body[-1].orelse:
+            return False
+        if not all(isinstance(st, ast.Assign) for st in body[:-1]):
+            return False
+        loop = body[-1]
+        ys = [x for x in ast.walk(self.node) if isinstance(x, ast.Yield)]
+        if len(ys) != 1:
+            return False
+
+        def tail(stmts):
+            """the yield is the last statement executed in this list whenever it is executed"""
+            if not stmts:
+                return False
+            last = stmts[-1]
+            if isinstance(last, ast.Expr) and last.value is ys[0]:
+                return True
+            if isinstance(last, ast.If):
+                inb = any(x is ys[0] for st in last.body for x in ast.walk(st))
+                ine = any(x is ys[0] for st in last.orelse for x in ast.walk(st))
+                return (inb and tail(last.body)) or (ine and tail(last.orelse))
+            return False
+        nested = [x for x in ast.walk(loop) if isinstance(x, (ast.For, ast.While, ast.Try, ast.With)) and x is not loop]
+        return tail(loop.body) and not nested
+
     def assign_form(self):
         return bool(self.returns) and all(r.value is not None for r in self.returns) and _terminates(self.body) and self._structured()
 
@@ -349,6 +380,18 @@ def _instantiate(h, call, caller, caller_self, form, target=None, shared=frozens
                 mapped.append(i)
         if mapped:
             keep_positions = [i for _, _, i in pairs if i not in mapped]
+    # `for T in H(..)` where H yields one of its own locals: that local simply *is* T
+    forgen_direct = False
+    if form == "forgen" and isinstance(target.target, ast.Name):
+        ys = [x for x in ast.walk(h.node) if isinstance(x, ast.Yield)]
+        yv = ys[0].value if len(ys) == 1 else None
+        tname = target.target.id
+        h_names = {x.id for x in ast.walk(h.node) if isinstance(x, ast.Name)} | set(h.params) | set(h.kwonly)
+        arg_names = {x.id for a in m.values() for x in ast.walk(a) if isinstance(x, ast.Name)}
+        if isinstance(yv, ast.Name) and yv.id in h.stored and yv.id not in m and yv.id not in names and tname not in arg_names and (tname == yv.id or tname not in h_names):
+            names[yv.id] = tname
+            taken.add(tname)
+            forgen_direct = True
     for loc in sorted(h.stored - set(m) - set(names) - set(shared)):
         if loc in taken:
             new = "%s__%s" % (h.name.strip("_"), loc)
@@ -363,6 +406,25 @@ def _instantiate(h, call, caller, caller_self, form, target=None, shared=frozens
             env[st.targets[0].id] = _Rename(names, dict(env)).visit(copy.deepcopy(st.value))
         return ast.copy_location(_Rename(names, env).visit(copy.deepcopy(h.body[-1].value)), call)
     body = [ren.visit(copy.deepcopy(st)) for st in h.body]
+    if form == "forgen":
+        if body and isinstance(body[-1], ast.Return):
+            body.pop()
+        consumer = target            # the For statement
+
+        class _Y(ast.NodeTransformer):
+            def visit_Expr(self, n):
+                if isinstance(n.value, ast.Yield):
+                    first = ast.copy_location(ast.Assign(targets=[copy.deepcopy(consumer.target)], value=n.value.value, lineno=n.lineno), n)
+                    return ([] if forgen_direct else [first]) + [copy.deepcopy(x) for x in consumer.body]
+                return self.generic_visit(n)
+        new_body = []
+        for st in body:
+            r = _Y().visit(st)
+            new_body.extend(r if isinstance(r, list) else [r])
+        out = binds + new_body
+        for st in out:
+            ast.fix_missing_locations(st)
+        return out
     if form == "listgen":
         if body and isinstance(body[-1], ast.Return):
             body.pop()
@@ -668,6 +730,9 @@ def _one_pass(trees, protected):
                 if isinstance(outer, ast.Call) and isinstance(outer.func, ast.Name) and outer.func.id == "list" and outer.args == [call] and not outer.keywords \
                         and isinstance(st, ast.Assign) and st.value is outer and len(st.targets) == 1 and _simple_target(st.targets[0]):
                     form = "listgen"
+                elif isinstance(outer, ast.For) and outer.iter is call and not outer.orelse and h.forgen_form():
+                    # for T in H(...): BODY   - the loop of the generator, with BODY where it yields
+                    form, st = "forgen", outer
             elif isinstance(st, ast.Return) and st.value is call:
                 form = "tail"
             elif isinstance(st, ast.Expr) and st.value is call and h.stmt_form():
@@ -684,7 +749,7 @@ def _one_pass(trees, protected):
             if form is None:
                 ok = False
                 break
-            if form in ("tail", "stmt", "assign", "listgen"):
+            if form in ("tail", "stmt", "assign", "listgen", "forgen"):
                 holder = parent.get(st)
                 field = None
                 for fname in ("body", "orelse", "finalbody"):
@@ -701,7 +766,7 @@ def _one_pass(trees, protected):
         # instantiate everything first; apply only if every site works
         plans = []
         for form, call, st, holder, field, f, caller_self in sites:
-            new = _instantiate(h, call, f, caller_self, form, target=st.targets[0] if form in ("assign", "listgen") else None)
+            new = _instantiate(h, call, f, caller_self, form, target=st.targets[0] if form in ("assign", "listgen") else (st if form == "forgen" else None))
             if new is None:
                 plans = None
                 break
